@@ -1016,3 +1016,17 @@ TARGETS += [dict(VSS, func='__gt__', coq_name='py_src_gt'),
             dict(VSS, func='__ge__', coq_name='py_src_ge'),
             dict(VSS, func='__lt__', coq_name='py_src_lt'),
             dict(VSS, func='__le__', coq_name='py_src_le')]
+
+# (26) gtf/TranscriptAnnotationModel.py get_upstream_exon_end / get_downstream_exon_start (used by
+#      VariantRecord.shift_breakpoint_to_closest_exon for intronic fusion breakpoints)
+#                                                         vs Fusion.upstream_exon_end / downstream_exon_start
+#      None = the ValueError of the function or the UnboundLocalError of `ind` when the first exon already breaks the loop.
+TAM_F = dict(TAM, out='Py_TranscriptAnnotationModel_fusion', imports=['Model.Rmats', 'Model.Fusion'],
+             args=[('strand', 'Z'), ('ex', 'list exon'), ('pos', 'Z')], params={'pos': ('pos', 'Z')},
+             ret_ty='Z', res_ty='option Z', ok='(Some {})', stub='Some (-7)',
+             errors={'UnboundLocalError': 'None', 'ValueError': 'None'}, raises=[('ValueError', 'any', None, 'None')],
+             maybe_locals={'ind': 'Z'},
+             patterns=[('self.transcript.strand', {}, 'strand', 'Z'), ('self.exon', {}, 'ex', 'list exon'),
+                       ('_e.location.start', {'_e': 'exon'}, '(fst {_e})', 'Z'), ('_e.location.end', {'_e': 'exon'}, '(snd {_e})', 'Z')])
+TARGETS += [dict(TAM_F, func='get_upstream_exon_end', coq_name='py_upstream_exon_end'),
+            dict(TAM_F, func='get_downstream_exon_start', coq_name='py_downstream_exon_start')]
